@@ -181,6 +181,35 @@ def run_one(s):
                     cs.append(U.q_of(c, row))
                 rec["pts"] = cs
             tr["own"].append(rec)
+        # (2b) Boolean combinations: grid samples of the boundaries of the two OPERANDS, asked of the combination's boundary -- pieces of
+        #      an operand's boundary that are far from the boundary of the result (inside the other operand, cut away, ...) are rejected
+        tr["opnd"] = []
+        if e["k"] in ("union", "cut", "and"):
+            for side in ("l", "r"):
+                row = rows_for(names, 1, tid + 3)[0]
+                rec = {"side": side, "exc": "", "pts": [], "bits": []}
+
+                def opnd():
+                    ob = U.build(e[side]).boundary
+                    sp = ob.sample_grid(n=24, params=U.mk_params(names, [row]))
+                    sp = sp[:, list(dom.space.keys())] if set(dom.space.keys()) <= set(sp.space.keys()) else sp
+                    return sp, bd._contains(sp, U.mk_params(names, [row] * len(sp)))
+                r = watched(opnd, 4)
+                if r[0] != "ok":
+                    rec["exc"] = r[1] if len(r) > 1 else "hang"        # (not judged: the operand itself may be degenerate at this row)
+                else:
+                    sp, bits = r[1]
+                    rec["bits"], _ = bits_of(bits, len(sp))
+                    t = sp.as_tensor
+                    cs = []
+                    for i in range(len(sp)):
+                        c, k = {}, 0
+                        for v in vs:
+                            c[v] = [float(x) for x in t[i, k:k + U.SPACES[v]]]
+                            k += U.SPACES[v]
+                        cs.append(U.q_of(c, row))
+                    rec["pts"] = cs
+                tr["opnd"].append(rec)
         # the same boundary 256 times larger: it accepts its own samples whatever the size of the shape (points scaled back for the oracle)
         if pick(tid, 2, 4) == 0:
             KS = 256.0
